@@ -554,8 +554,10 @@ class Script(object):
         return self.view(blueprint=True)
 
     def __add__(self, other):
+        # as_bytes() serializes the commands if there are no raw bytes yet, so take them before the commands are joined
+        raw = self.as_bytes() + other.as_bytes()
         self.commands += other.commands
-        self._raw += other.as_bytes()
+        self._raw = raw
         if other.message and not self.message:
             self.message = other.message
         self.is_locking = None
